@@ -390,7 +390,7 @@ class ResourceScenario(ScenarioData):
         current_used = self.slotSecondsUsed.get(sb_idx, 0.0)
         self.slotSecondsUsed[sb_idx] = current_used + seconds_used
 
-    def book(self, sb_idx: int, task: "Task", force: bool = False) -> float:
+    def book(self, sb_idx: int, task: "Task", force: bool = False, max_seconds: Optional[float] = None) -> float:
         """
         Book a time slot for a task.
 
@@ -398,6 +398,7 @@ class ResourceScenario(ScenarioData):
             sb_idx: Scoreboard index
             task: The task to book
             force: If True, overwrite existing booking
+            max_seconds: If given, book at most this many of the available seconds
 
         Returns:
             Effort gained from this booking (hours), or 0 if booking failed.
@@ -418,6 +419,8 @@ class ResourceScenario(ScenarioData):
         # Calculate effort based on available time in slot (for partial slots)
         self.project.attributes.get("scheduleGranularity", 3600)
         available_seconds = self.getAvailableSecondsInSlot(sb_idx)
+        if max_seconds is not None:
+            available_seconds = min(available_seconds, max_seconds)
         efficiency = self.property.get("efficiency", self.scenarioIdx) or 1.0
 
         # Effort = (available_seconds / 3600) * efficiency
